@@ -37,6 +37,20 @@ def scenario(rng, stops=None, kinds=("wfq-str", "drr-str", "sp", "port-wire-loss
         step_ = rng.choice([0.37, 0.5, 1.13])
         mon = Monitor(env, s, lambda: step_, service_included=rng.random() < 0.5)
         horizon = max(a["t"] for a in arr) + rng.choice([20, 40])
+    elif kind == "wfq-ties":
+        # WFQ with string class ids, non-dyadic weights and equal-sized packets arriving in bursts on an integer grid:
+        # many finish stamps are equal up to an ulp, so any arithmetic that depends on set / dict iteration order
+        # (hence on the string hash seed) flips a service decision
+        from onl.scheduler import WFQ
+        names = ["alpha", "beta", "gamma", "delta", "eps", "zeta"][: rng.randint(3, 6)]
+        w = {n: rng.choice([0.1, 0.3, 0.7, 0.2, 0.6]) for n in names}
+        s = WFQ(env, 8000.0, w, flow2class=lambda f: names[f % len(names)])
+        s.out = sink
+        arr, t = [], 0
+        for _ in range(rng.randint(20, 60)):
+            t += rng.choice([0, 0, 0, 1, 2])
+            arr.append({"t": t, "flow": rng.randrange(len(names)), "size": 1000, "age": 0})
+        net.drivers(s, arr)
     elif kind in ("wfq-str", "drr-str", "sp"):
         from onl.scheduler import WFQ, DRR, SP
         names = ["alpha", "beta", "gamma", "delta", "eps"][: rng.randint(2, 5)]
